@@ -4,4 +4,4 @@ from vlib.props._packet import packet_obs
 
 def obligations(tier, seed):
     p = packet_obs()
-    return [p[k] for k in ("pagelink", "x27_links", "lop_parity")]
+    return [p[k] for k in ("pagelink", "x27_links", "lop_parity", "lop_parity_x26", "header")]
